@@ -123,7 +123,7 @@ AGoto(A) ==
     IF Peek(A).k # "numericliteral" THEN RErr(IF HasTok(A) THEN Adv(A) ELSE A, "undefined_statement")
     ELSE LET v == Peek(A).v
              A1 == Adv(A)
-         IN  IF v.t = "o" THEN RErr(A1, "unknown")
+         IN  IF ~IsFin(v) THEN RErr(A1, "unknown")
              ELSE IF GotoKey(v) \in DOMAIN A1.prog THEN ROk(A1, TNum) ELSE RErr(A1, "undefined_statement")
 
 AStmtOrGoto(A) == IF Peek(A).k = "numericliteral" THEN AGoto(A) ELSE AStatement(A)
